@@ -55,6 +55,14 @@ Theorem C07_step_keeps_tau_kappa_positive :
     (0 < tau + a * dtau)%R /\ (0 < kappa + a * dkappa)%R.
 Proof. exact step_keeps_tau_kappa_positive. Qed.
 
+(** every step that is actually taken passed the small-step checkpoint: its length is not at
+    or below the termination threshold (which is >= 0), so accepted steps are positive; with
+    [C07_step_keeps_tau_kappa_positive] (length <= 1, damped) this is "length in (0,1]" *)
+Theorem C07_accepted_steps :
+  forall A azero a_is_zero a_lt_switch a_le_term,
+    stmt_accepted_steps A azero a_is_zero a_lt_switch a_le_term.
+Proof. exact accepted_steps_ok. Qed.
+
 (** barrier backtracking of the combined step (dual scaling, nonsymmetric cones): the result is
     the given step times step^k with k <= 50 the number of failed barrier tests, hence positive
     and not longer than the step it was given *)
